@@ -310,6 +310,11 @@ def correspond_py(run, corr, rng, n_py):
     preqs += ["hop.pypnm %d" % n for n in list(range(0, 140)) + [200, 255, 256, 257, 1000]]
     pimpl = vf.run_lines(py_cmd(), preqs)
     pmodel = vf.run_driver(preqs)
+    nskip = sum(1 for a in pimpl if a == "skip")
+    if nskip:
+        kept = [(r, a, m) for r, a, m in zip(preqs, pimpl, pmodel) if a != "skip"]
+        preqs, pimpl, pmodel = [k[0] for k in kept], [k[1] for k in kept], [k[2] for k in kept]
+        corr.distribution["py requests addressed to a private attribute this tree does not have (not comparable)"] = nskip
     corr.compare(preqs, pimpl, pmodel, in_domain=in_domain)
     for r, a in zip(preqs, pimpl):
         corr.count(r, r.split()[0] + ":" + ("exc" if "EXC" in a else "ok"))
